@@ -109,4 +109,9 @@ theorem fold_eq_runtime_conv_lem (t1 t2 : Go.ITy) (ht : 0 < t1.bits) (x : Int) (
     unfold BitVec.signExtend
     rw [toInt_enc ht hs hx]; rfl
 
+/-! equation lemmas used by the property file (kept here so that Props/C15.lean declares property theorems only) -/
+theorem exactUn_not (y : Int) (prec : Nat) : exactUn .not y prec = if prec = 0 then -y - 1 else (-y - 1) % 2 ^ prec := rfl
+theorem bind_ok (x : Int) (f : Int → Verdict) : (Verdict.ok x).bind f = f x := rfl
+theorem bind_cannot (f : Int → Verdict) : Verdict.cannot.bind f = .cannot := rfl
+
 end WaVerif.C15
